@@ -178,9 +178,9 @@ func oracleReads(probes [][]byte) Oracle {
 // mutReader adapts *iavl.MutableTree (whose Get/Iterate are overridden for the working state).
 type mutReader struct{ t *iavl.MutableTree }
 
-func (r mutReader) Get(k []byte) ([]byte, error)                  { return r.t.Get(k) }
-func (r mutReader) Has(k []byte) (bool, error)                    { return r.t.Has(k) }
-func (r mutReader) GetWithIndex(k []byte) (int64, []byte, error)  { return r.t.GetWithIndex(k) }
-func (r mutReader) GetByIndex(i int64) ([]byte, []byte, error)    { return r.t.GetByIndex(i) }
-func (r mutReader) Size() int64                                   { return r.t.Size() }
+func (r mutReader) Get(k []byte) ([]byte, error)                    { return r.t.Get(k) }
+func (r mutReader) Has(k []byte) (bool, error)                      { return r.t.Has(k) }
+func (r mutReader) GetWithIndex(k []byte) (int64, []byte, error)    { return r.t.GetWithIndex(k) }
+func (r mutReader) GetByIndex(i int64) ([]byte, []byte, error)      { return r.t.GetByIndex(i) }
+func (r mutReader) Size() int64                                     { return r.t.Size() }
 func (r mutReader) Iterate(fn func(k, v []byte) bool) (bool, error) { return r.t.Iterate(fn) }
